@@ -168,6 +168,39 @@ class Ref:
                         return None
         return ctx
 
+    def directed_names(self, rng, alphabet, per_alt=4):
+        """Names built from the alternatives themselves (so that deep rules are reached): literals as written, patterns
+        drawn from the alphabet or - when constrained by literal options - from the options; plus near misses in which
+        one component is replaced by another alphabet value or by an option of some constraint in the schema."""
+        out = []
+        all_opts = [lit(o[1]) for d in self.schema['rules'] for cs in d['cons'] for _, os_ in cs for o in os_ if o[0] == 'lit']
+        for rn in self.defs:
+            for (items, cons) in self.alternatives(rn):
+                for _ in range(per_alt):
+                    bound = {}
+                    name = []
+                    for it in items:
+                        if it[0] == 'lit':
+                            name.append(it[1])
+                            continue
+                        key = it[1]
+                        if key in bound:
+                            name.append(bound[key])
+                            continue
+                        opts = [lit(o[1]) for k, os_ in cons if k == key for o in os_ if o[0] == 'lit']
+                        refs = [bound.get(('n', o[1])) for k, os_ in cons if k == key for o in os_ if o[0] == 'pat']
+                        cand = opts + [r for r in refs if r is not None]
+                        v = rng.choice(cand) if cand and rng.random() < 0.8 else rng.choice(alphabet)
+                        if key[0] == 'n':
+                            bound[key] = v
+                        name.append(v)
+                    out.append(name)
+                    if name:
+                        m = list(name)
+                        m[rng.randrange(len(m))] = rng.choice(alphabet + all_opts)
+                        out.append(m)
+        return out
+
     def match(self, name):
         """-> set of (rule name without temporary suffix, frozenset(named bindings))"""
         out = set()
@@ -457,6 +490,20 @@ def template_schemas(rng, with_signers):
     L = lambda t: ('lit', t)   # noqa
     P = lambda t: ('pat', t)   # noqa
     out = []
+    # a certificate hierarchy: one key-name rule with several temporaries (one of them constrained) referenced by many
+    # rules that have temporaries of their own, so that the compiler hands out dozens of temporary numbers
+    nlev = rng.randint(9, 13)
+    hier = [R('#K', [L('KEY'), P('_i'), P('_k'), P('_v')], [[(rng.choice(['_i', '_k', '_v']), [L(a), L(b)])]]),
+            R('#net', [L(c)]), R('#site', [('ref', '#net'), P('_s')])]
+    for i in range(nlev):
+        mid = []
+        for j in range(rng.randint(0, 3)):
+            mid.append(rng.choice([L('L%d' % (j % 3)), P('_m'), P('_m%d' % j), P('_')]))
+        hier.append(R('#c%d' % i, [('ref', rng.choice(['#net', '#site']))] + mid + [('ref', '#K')], None,
+                      (['#c%d' % (i - 1)] if (with_signers and i > 0) else [])))
+    if with_signers:
+        hier.append(R('#pkt', [('ref', '#site'), L('L0'), P('_d')], None, ['#c%d' % (nlev - 1)]))
+    out.append({'rules': hier})
     if not with_signers:
         # shared prefix binding p1; one branch repeats p1 and fails, the sibling relies on p1 still being bound
         out.append({'rules': [R('#r1', [P(p1), P(p1), L(a)]), R('#r2', [P(p1), P(p2), P(p1)]), R('#r3', [P(p1), P(p2), P(p2), L(b)])]})
